@@ -207,7 +207,10 @@ def run(ctx, rep):
             rep.obligations.append(o2)
     # B5: joined doc lines (shared with C15 X3)
     sub = core.Report('C10', rep.tier)
-    c15.run(ctx, sub)
+    try:
+        c15.run(ctx, sub)
+    except core.Incomplete as e_:
+        rep.incomplete.append('B5 (shared with C15): ' + str(e_))
     n = 0
     for o in sub.obligations:
         if o['rule'] == 'X3':
